@@ -1,5 +1,5 @@
 """C02 - wire interoperability with the reference implementation (W1-W4 + T2/T3)."""
-from . import codec, varint
+from . import codec, presence, varint
 
 PROP = "C02"
 TECHNIQUE = "table conformance against the reference implementation's source text (ast extraction), E2 dispatch summaries, interval domain"
@@ -18,6 +18,8 @@ def run(ctx) -> None:
                      ("T2", codec.rule_T2), ("T3", codec.rule_T3)):
         ctx.rules_run.append(name)
         fn(ctx)
+    ctx.rules_run.append("D2")
+    presence.rule_D2(ctx)   # the reference's HasField / WhichOneof sees a member only if dump emits it
     ctx.floor("W1", "table entries", len([o for o in ctx.obs if o.rule == "W1"]), 30)
     ctx.assume("google.protobuf's pure-python tables describe the reference wire format (cross-checked with the embedded spec table)")
 
